@@ -200,6 +200,11 @@ Definition apply_async (s : lstate) (l : line) : option lstate :=
       let cid := l_next s in
       let c := mkConn fd false false [] [] [] (udp =? 1) false in
       Some (ext (set_next (setc s cid c) (cid + 1)) true (TRegister cid true))
+  | ("dial", [AInt fd; AInt udp]) =>
+      (* Client.Dial / Client.Enroll: register task with callback, HIGH priority *)
+      let cid := l_next s in
+      let c := mkConn fd false false [] [] [] (udp =? 1) false in
+      Some (ext (set_next (setc s cid c) (cid + 1)) false (TRegister cid true))
   | ("stop", []) => Some (ext s false TShutdown)
   | _ => None
   end.
@@ -908,7 +913,10 @@ Definition el_accept (fuel : nat) (lfd : Z) (is_udp : bool) (w : world) : res * 
 Definition dispatch (fuel : nat) (fd ev : Z) (w : world) : res * world :=
   match alookup fd (l_reg (st w)) with
   | Some cid =>
-      if c_udp (wc w cid) then el_read_udp fuel fd false w else process_io fuel cid ev w
+      (* default build: every registered connection -- a client's connected UDP socket
+         included -- is served through conn.processIO (the readUDP attachment callback is
+         only used by the poll_opt build) *)
+      process_io fuel cid ev w
   | None =>
       match alookup fd (l_listeners (st w)) with
       | Some is_udp => el_accept fuel fd is_udp w
@@ -921,7 +929,8 @@ Definition run_task (fuel : nat) (t : task) (w : world) : res * world :=
   match t with
   | TRegister cid cb =>
       let '(r, w1) := el_register0 fuel cid w in
-      (r, if cb then emit (obs "regcb" [AInt cid]) w1 else w1)
+      (* the registration callback (closing connOpened) is not observable from outside: ghost marker *)
+      (r, if cb then ghost "regcb" cid [] w1 else w1)
   | TAsyncWrite cid d cb =>
       let c := wc w cid in
       if negb (c_opened c) then
